@@ -1022,7 +1022,8 @@ class BaseMatcher:
                         edge_o = Segment(f"O{obs_idx}", obs, f"O{obs_idx+1}", obs_next)
                         m_next = m.next(edge_m, edge_o, obs=obs_idx, obs_ne=nb_ne)
                         if m_next is not None:
-                            if m_next.key in cur_lattice_new:
+                            # A stopped entry is only a placeholder kept for debug output, it does not make the state known
+                            if m_next.key in cur_lattice_new and not cur_lattice_new[m_next.key].stop:
                                 cur_lattice_new[m_next.key].update(m_next)
                             else:
                                 if m_next.shortkey in lattice_best:
